@@ -101,6 +101,10 @@ def run(ctx):
         el = eligible(text.split('\n'))
         S = [x for i, x in enumerate(el) if i == 0 or x - el[i - 1] > 1]
         large.append((text, S, [rng.choice(BLANKS[:5]) for _ in S], False))
+    # beyond 1 MiB, a marker exactly at the start of every block of 4096 characters
+    text = G.aligned_text(rng, 1150000, 'marker-start', gaps=True)
+    el = eligible(text.split('\n'))
+    large.append((text, el, [rng.choice(BLANKS[:5]) for _ in el], False))
     fails = ctx.prop('prop:blanked-markers', cases, p_blank)
     fails += ctx.prop('prop:blanked-markers:large', large, p_blank)
     ctx.stream('prop:blanked-markers')['eligible_markers_histogram'] = markers
